@@ -671,9 +671,9 @@ class Executor:
             return printed
         caps = {}
         for name, place in body.debug:
-            m = re.match(r"^\(\(?\*?_1\)?\.(\d+): ", place)
+            m = re.match(r"^(\(\*)?\(\(?\*?_1\)?\.(\d+): ", place)
             if m:
-                caps[int(m.group(1))] = (name, place)
+                caps[int(m.group(2))] = (name, place)
         if len(caps) <= len(printed):
             return printed
         parent = self.frame(st).fn
@@ -682,8 +682,7 @@ class Executor:
             if k not in caps:
                 raise Unsupported("closure %s: capture %d has no debug name" % (rv.extra[0], k))
             name, place = caps[k]
-            if place.startswith("(*("):
-                raise Unsupported("closure %s captures %s by reference and the printer dropped the operand" % (rv.extra[0], name))
+            byref = place.startswith("(*(")
             parts = name.split("__")
             locs = [pl for dn, pl in parent.debug if dn == parts[0] and re.fullmatch(r"_\d+", pl)]
             if len(set(locs)) != 1:
@@ -692,17 +691,29 @@ class Executor:
             if v is None:
                 raise Unsupported("closure %s: captured variable %s (%s) is not initialised" % (rv.extra[0], parts[0], locs[0]))
             ty = parent.locals.get(locs[0], "")
+            proj = []
             for fld in parts[1:]:
-                sname = strip_generics(ty).split("::")[-1].strip()
+                sname = strip_generics(ty).lstrip("&").replace("mut ", "").split("::")[-1].strip()
                 fields = (self.structs or {}).get(sname)
                 if not fields or fld not in [f for f, _ in fields]:
                     raise Unsupported("closure %s: field %s of %s is unknown (capture %s)" % (rv.extra[0], fld, sname, name))
                 idx = [f for f, _ in fields].index(fld)
                 ty = fields[idx][1]
                 while isinstance(v, (Ref, BoxRef)):
+                    if proj:
+                        raise Unsupported("closure %s: capture %s goes through a reference" % (rv.extra[0], name))
                     v = self.deref(st, v)
+                    proj = None  # the variable itself is a reference: by-ref captures of its fields are not rebuilt
                 v = v.get_field(idx) if hasattr(v, "get_field") else v.fields[idx]
-            out.append(v)
+                if proj is not None:
+                    proj.append(("field", idx))
+            if byref:
+                if proj is None:
+                    out.append(BoxRef(v))  # shared (immutable) view of the field
+                else:
+                    out.append(Ref(len(st.frames) - 1, locs[0], proj, False))
+            else:
+                out.append(v)
         return out
 
     def closure_body(self, fnval):
